@@ -319,6 +319,8 @@ val inst : henv -> char list -> pattern -> char list
 
 val fstring : henv -> pattern -> char list
 
+val merge_lits : pattern -> pattern
+
 type ckind =
 | KSingle
 | KColl
@@ -438,6 +440,10 @@ type cpv = { v_args : char list list; v_includes : char list list;
              v_fields : (vdecl * char list) list }
 
 val param_name : char list
+
+val compose : pattern -> pattern -> pattern
+
+val line_env : cspec -> char list -> henv
 
 val running_code : coder -> cspec -> char list -> char list list
 
